@@ -9,7 +9,7 @@ C04 — machine-checked witnesses on the remote-join LTS (Compio.Model.RemoteJoi
   * `executor_drop_does_not_wake`      observation on the current code: dropping the executor while the
     handle is parked drops the waker without waking it.
 -/
-import Compio.Lemmas.RemoteJoin
+import Compio.Lemmas.RemoteJoinTie
 import Compio.Lemmas.ExecutorSteps
 
 namespace Compio.Cex.C04
@@ -37,6 +37,12 @@ theorem delivery_counterexample_unfixed : ¬ (∀ s : RState, Reachable false s 
   obtain ⟨s, _, hr, hp, _, hc, he, _, hw⟩ := lost_wake_run_unfixed
   have := h s hr 7 hp hc he
   simp [hw] at this
+
+/-- whenever the extracted `Remote::poll` does NOT re-check at every `finish_setting_waker::<true>()` site,
+delivery fails for the code as extracted -/
+theorem delivery_needs_recheck (h : pollRechecks = false) :
+    ¬ (∀ s : RState, Reachable pollRechecks s → deliveryStatement s) := by
+  rw [h]; exact delivery_counterexample_unfixed
 
 /-- the same interleaving on the CURRENT program: `finish_setting_waker::<true>` returns a completed
 snapshot, the handle reloads, takes the result and, as last holder, drops the waker and frees the task -/
